@@ -318,3 +318,15 @@ func (w *World) RunCheckSQL(t testing.TB, rows []*relationtuple.RelationTuple, q
 	out.Calls = calls
 	return out
 }
+
+// diverged: replaying a recorded choice prefix led to a different set of alternatives. The explorer's
+// premise (an execution is a function of its choices) does not hold for the code under test - e.g.
+// state survives from one execution to the next, or the code takes decisions from an uncontrolled
+// source. That is "not decided" (exit 2), never a property verdict.
+func diverged(x *vsched.Execution, where string) bool {
+	if x.Outcome != "diverged" {
+		return false
+	}
+	fatalInfra("schedule replay diverged in %s: executions are not a function of the scheduler's choices (state surviving an execution, or an uncontrolled source of nondeterminism)", where)
+	return true
+}
